@@ -8,11 +8,12 @@ import contracts.potential, contracts.lammps_table, contracts.gulp
 import contracts.dlpoly_table as DT
 import contracts.pair_tabulation as PT
 import contracts.builders as BU
+import contracts.factories as FCc
 
 F = DT.FILE
 FUNCTIONS = [(F, '_writePotential'), (F, '_calculateForce'), (F, '_writeTableHeader'), (F, 'writePotentials'),
              (PT.FILE, 'DLPoly_PairTabulation.write'), (PT.FILE, 'DLPoly_PairTabulation.__init__'), (PT.F_INIT, 'writePotentials'),
-             (K.F_POT, 'Potential.__init__')] + [(BU.FILE, 'Pair_Potentials_From_Tuples_Builder.__init__'), (BU.FILE, 'Pair_Potentials_From_Tuples_Builder._create_potential'), (BU.FILE, 'Pair_Potentials_From_Tuples_Builder._init_potentials')]
+             (K.F_POT, 'Potential.__init__'), (FCc.FILE, 'DLPOLY_PairTabulationFactory.extract_cutoffs')] + [(BU.FILE, 'Pair_Potentials_From_Tuples_Builder.__init__'), (BU.FILE, 'Pair_Potentials_From_Tuples_Builder._create_potential'), (BU.FILE, 'Pair_Potentials_From_Tuples_Builder._init_potentials')]
 SPECSEQS = [DT.erecs, DT.frecs, DT.acc]
 
 def lemmas():
